@@ -53,7 +53,7 @@ FILE_CHECKS = {
     "connections/in_memory/": BROKER + ["C10"],
     "connections/abc.py": ["C17", "C13", "C02", "C01"],
     "_runner.py": ["C10", "C17", "C13", "C02", "C09", "C03"],
-    "_processor.py": ["C10", "C17", "C16", "C13", "C08", "C18", "C02", "C04"],
+    "_processor.py": ["C10", "C17", "C16", "C13", "C08", "C18", "C02", "C04", "C03"],
     "worker.py": ["C10", "C17", "C20", "C11", "C03"],
     "message.py": ["C16", "C13", "C02", "C04"],
     "job.py": ["C19", "C07", "C05", "C12", "C13", "C06"],
@@ -64,7 +64,7 @@ FILE_CHECKS = {
     "data/": ["C19", "C05", "C12", "C07", "C13", "C06", "C04"],
     "_utils/": ["C07", "C13", "C08", "C18"],
     "middlewares/": ["C17", "C13", "C02"],
-    "dependencies/": ["C16", "C13", "C08", "C18", "C02"],
+    "dependencies/": ["C16", "C13", "C08", "C18", "C02", "C04"],
     "retry_policy.py": ["C19", "C04"],
     "serializer.py": ["C07", "C08"],
     "_asyncify.py": ["C08", "C17"],
